@@ -226,8 +226,12 @@ def lex(text):
                     r.legacy = True
                     if cur is not None:
                         cur.legacy = True
-                if raw in ("[", "[=", "[==") or (raw.startswith("[") and re.fullmatch(r"\[=*", raw)):
-                    fail("stray-text", start)      # a lone bracket opener is a bad character for CMake
+                if re.match(r"\[=+", raw) and not BR_OPEN.match(raw):
+                    # '[=' not followed by a second '[': CMake 3.25 cuts this into '[' and '=...' with a
+                    # "not separated" warning (observed) -- treated as a legacy form, never asserted on
+                    r.legacy = True
+                    if cur is not None:
+                        cur.legacy = True
         line_here = line
         line += text.count("\n", start, end)
         if cur is None:
